@@ -1179,6 +1179,10 @@ def solve(objfun, x0, h=None, lh=None, prox_uh=None, argsf=(), argsh=(), argspro
 
     if nruns - last_successful_run >= params("restarts.max_unsuccessful_restarts"):
         exit_info = ExitInformation(EXIT_SUCCESS, "Reached maximum number of unsuccessful restarts")
+    elif exit_info.flag == EXIT_AUTO_DETECT_RESTART_WARNING:
+        # An auto-detected (hard) restart was requested but could not be started: the budget is exhausted
+        # (same outcome as Controller.soft_restart reports when it cannot restart)
+        exit_info = ExitInformation(EXIT_MAXFUN_WARNING, "Objective has been called MAXFUN times")
 
     # Process final return values & package up
     exit_flag = exit_info.flag
